@@ -1896,7 +1896,9 @@ pub fn sllv(
     let block_index = {
         let block = control_flow_graph.new_block()?;
 
-        block.assign(rd, Expr::shl(rt, rs)?);
+        // only the low five bits of rs give the shift amount
+        let amount = Expr::and(rs, expr_const(0x1f, 32))?;
+        block.assign(rd, Expr::shl(rt, amount)?);
 
         block.index()
     };
@@ -2170,7 +2172,9 @@ pub fn srav(
     let block_index = {
         let block = control_flow_graph.new_block()?;
 
-        block.assign(rd, Expr::ashr(rt, rs)?);
+        // only the low five bits of rs give the shift amount
+        let amount = Expr::and(rs, expr_const(0x1f, 32))?;
+        block.assign(rd, Expr::ashr(rt, amount)?);
 
         block.index()
     };
@@ -2220,7 +2224,9 @@ pub fn srlv(
     let block_index = {
         let block = control_flow_graph.new_block()?;
 
-        block.assign(rd, Expr::shr(rt, rs)?);
+        // only the low five bits of rs give the shift amount
+        let amount = Expr::and(rs, expr_const(0x1f, 32))?;
+        block.assign(rd, Expr::shr(rt, amount)?);
 
         block.index()
     };
